@@ -157,7 +157,7 @@ def mulFixed (w : Nat) (x r : EI) : EI :=
 
 /-- THE SWITCH: which `operator*=` the driver (and `parse`, which multiplies) runs.
     Pinned tree: `mulAsIs`.  After the `fix:` commit for D16a: `mulFixed`. -/
-@[inline] def mul (w : Nat) (x r : EI) : EI := mulAsIs w x r
+@[inline] def mul (w : Nat) (x r : EI) : EI := mulFixed w x r
 
 /-! ### shifts -/
 
